@@ -203,7 +203,7 @@ func cmdCheck(args []string) int {
 	timeout := 20000
 	if tier == "thorough" {
 		timeout = 60000
-		allSolvers = true
+		crossCheck = true
 	}
 	t0 := time.Now()
 	statusBefore := repoStatus()
@@ -447,6 +447,11 @@ func (r *propResult) report() int {
 	}
 	for k, v := range r.Extra {
 		cov[k] = v
+	}
+	if crossCheck {
+		cov["cross_checked_queries"] = crossN
+		cov["cross_check_second_solver_agrees"] = crossAgree
+		cov["cross_check_second_solver_undecided"] = crossOpen
 	}
 	ev := map[string]interface{}{
 		"property_id": r.Prop, "tier": r.Tier, "seed": r.Seed, "level": "proof",
